@@ -835,6 +835,7 @@ def seq_search(ctx, rebound, rng):
         seqs = [q for k, q in enumerate(seqs) if len(q) == 2 or k % 2 == 0]
     clib = rebound.clibrebound
     found = {}
+    other = []
     with warnings.catch_warnings():
         warnings.simplefilter("ignore")
         for q in seqs:
@@ -881,13 +882,17 @@ def seq_search(ctx, rebound, rng):
                     elif sim.gravity_ignore != fresh.gravity_ignore:
                         key = "sequence:ignore_terms_left=%d:%s" % (sim.gravity_ignore, B)
                     else:
-                        key = "sequence:forces_differ:%s" % "->".join(x.partition(":")[0] for x in q)
+                        # same force selectors, different trajectory: internal integrator state carried over (e.g. the N-body ODE that
+                        # BS leaves registered, JANUS' integer coordinates) - not a property of the force routines; reported, not judged here
+                        other.append(("->".join(q), float("%.3g" % diff)))
+                        continue
                     found.setdefault(key, (q, {"sequence": list(q), "system": sysd, "failing": "max |dx| vs fresh simulation %.3e; gravity %s/%s, "
                                                "gravity_ignore_terms %d/%d (continued/fresh)" % (diff, sim.gravity, fresh.gravity, sim.gravity_ignore, fresh.gravity_ignore)},
                                            "after %s the trajectory differs from a fresh simulation given the same state and integrator %s: a gravity "
                                            "selector left behind by an earlier integrator changes the force" % ("->".join(q[:-1]), last)))
             except (RuntimeError, ValueError, AttributeError):
                 continue
+    ctx.extra["sequence_state_differences_not_force_related"] = other[:40]
     for key, (q, rep, what) in sorted(found.items()):
         ctx.violation(key, rep, True, what)
 
@@ -895,6 +900,7 @@ def seq_search(ctx, rebound, rng):
 # ----------------------------------------------------------------------------------------------- main
 def run(ctx):
     libdir = ctx.lib(tag="c02")   # own build directory: concurrent checks with another VERIF_REPO purge lib-default-*
+    ctx.regen("translate_gravprologue.py")
     proved = ctx.prove("C02", extra_targets=["C02/Run.vo", "C02/RunWH.vo", "C02/RunTree.vo"])
     sys.path.insert(0, libdir)
     import rebound
